@@ -746,7 +746,11 @@ func c16Jobs(thorough, race bool) []c16Job {
 	}
 	var js []c16Job
 	for _, sc := range scs {
-		js = append(js, c16Job{sc, p})
+		q := p
+		if !thorough && strings.HasPrefix(sc.name, "G11-") && q > 2 {
+			q = 2 // eight operations on three threads: P<=3 is the thorough tier's (the release points of the TryLock'd registration mutex doubled it)
+		}
+		js = append(js, c16Job{sc, q})
 	}
 	return js
 }
